@@ -33,7 +33,8 @@ EXTENDS Integers, Sequences, FiniteSets, TLC, GateOps
 CONSTANTS
     ExtOrder,       \* sequence of the names that may be files in the extensions directory, in directory order
     Callers,        \* identities of invocation callers
-    MaxAgents       \* 10 in the code
+    MaxAgents,      \* 10 in the code
+    AsFound         \* names of repaired defects to model as they were found ({} = the code as repaired)
 
 ExtUniverse == {ExtOrder[i] : i \in DOMAIN ExtOrder}
 DirOrder(S) == SelectSeq(ExtOrder, LAMBDA x : x \in S)
@@ -110,6 +111,7 @@ State0(files, lf) ==
       ninv |-> 0,
       calls |-> <<>>, ncalls |-> 0,
       crashed |-> FALSE,
+      held |-> {},                     \* pause points (verif hooks) at which a goroutine is being held by the harness
       drvDl |-> 0,
       drv |-> "idle",                  \* platform driver calling Server.Reset / Server.Shutdown directly
       tel |-> <<>> ]
@@ -149,7 +151,7 @@ InitLockDo(s) == InitBegin([s EXCEPT !.hm = "init", !.credVal = IF s.caching THE
 
 \* d2: create the agent object of the next external extension (registration of that name is possible from
 \* now on) ...
-CreateExtEn(s) == s.pcI.pc = "d2" /\ Len(s.toExec) > 0
+CreateExtEn(s) == s.pcI.pc = "d2" /\ Len(s.toExec) > 0 /\ "init.afterRegisterCount" \notin s.held
 CreateExtDo(s) ==
     LET e == Head(s.toExec) IN
     IF ~s.regOpen THEN InitFail([s EXCEPT !.toExec = Tail(@)], "ErrRegistrationServiceOff")
@@ -171,7 +173,7 @@ LaunchExtDo(s) ==
 LaunchExtExec(s) == IF Head(s.toExec) \in s.launchFail THEN "launch" ELSE "ok"
 
 \* d3+d4: all external extensions registered -> create, register and launch the runtime
-LaunchRuntimeEn(s) == s.pcI.pc = "d2" /\ Len(s.toExec) = 0 /\ GCond(s.ig.extReg)
+LaunchRuntimeEn(s) == s.pcI.pc = "d2" /\ Len(s.toExec) = 0 /\ GCond(s.ig.extReg) /\ "init.afterRegisterCount" \notin s.held
 LaunchRuntimeDo(s) ==
     LET o == GOutcome(s.ig.extReg) IN
     IF o # "ok" THEN InitFail(s, o)
@@ -293,7 +295,8 @@ InvokeReturnDo(s) ==
 \* pl: label of the event payload (k = the bytes of invocation k, 0 = empty); an event larger than the
 \* limit reaches the runtime cut at the limit (label -k)
 NewInv(c, pl) == [c |-> c, pl |-> pl, id |-> 0, t0 |-> 0, m |-> "start", r |-> "off", f |-> "off", i |-> "off",
-                  out |-> "", relRes |-> "", body |-> NoBody, derr |-> NoBody]
+                  out |-> "", relRes |-> "", body |-> NoBody, derr |-> NoBody,
+                  got |-> FALSE]      \* a body (possibly empty) has been written to this caller's reply stream
 
 WithInv(s, k, rec) == [s EXCEPT !.iv = [x \in DOMAIN s.iv \cup {k} |-> IF x = k THEN rec ELSE s.iv[x]]]
 
@@ -317,7 +320,7 @@ MainBeginDo(s, k) ==
 
 \* release goroutine: Reserve.  A failed reservation is reported through releaseErrChan
 \* (tree after the fix of F-C10-1; the tree as found dereferenced the nil response and crashed).
-RelReserveEn(s, k) == s.iv[k].r = "res"
+RelReserveEn(s, k) == s.iv[k].r = "res" /\ "server.beforeReserve" \notin s.held
 RelReserveDo(s, k) ==
     IF s.srv.inv # 0 THEN [s EXCEPT !.iv[k].r = "senderr", !.iv[k].relRes = "AlreadyReserved"]
     ELSE [s EXCEPT !.srv.inv = k, !.srv.stream = FALSE, !.srv.sent = FALSE, !.srv.sowner = 0,
@@ -344,7 +347,7 @@ FioShutdownDoneDo(s, k) ==
 
 \* FastInvoke: attach this call's reply stream to whatever reservation is current, take its id,
 \* start the inner goroutine
-FioFastInvokeEn(s, k) == s.iv[k].f = "fast"
+FioFastInvokeEn(s, k) == s.iv[k].f = "fast" /\ "server.beforeFastInvoke" \notin s.held
 FioFastInvokeDo(s, k) ==
     IF s.srv.inv = 0 \/ s.srv.sent \/ s.srv.stream
     THEN [s EXCEPT !.iv[k].f = "off"]        \* NotReserved / AlreadyReplied / AlreadyInvocating: nothing dispatched
@@ -435,12 +438,16 @@ ResetLockDo(s, x) ==
 \* shutdown finished: generation++, mutex released
 ResetFinishEn(s, x) == s.rs[x].pc = "r2" /\ s.pcS.pc = "done" /\ s.pcS.by = <<"reset", x>>
 ResetFinishDo(s, x) ==
-    [s EXCEPT !.gen = @ + 1, !.hm = "free", !.rs[x].pc = "r3", !.pcS = PcSOff]
+    [s EXCEPT !.gen = @ + 1, !.hm = IF "clear-outside-mutex" \in AsFound THEN "free" ELSE @,
+              !.rs[x].pc = "r3", !.pcS = PcSOff]
 
-\* reinitialize (rapidContext.Clear): appctx keys, renderer, initDone, registration service, flows
-ResetClearEn(s, x) == s.rs[x].pc = "r3"
+\* reinitialize: appctx keys, renderer, initDone, registration service, flows.  The repaired code runs it
+\* before HandleReset releases the handler mutex; as found ("clear-outside-mutex", F-C03-1) it ran after
+\* the release, so that a handler queued on the mutex could start on state about to be cleared.
+ResetClearEn(s, x) == s.rs[x].pc = "r3" /\ "rapid.reinitialize" \notin s.held
 ResetClearDo(s, x) ==
-    [s EXCEPT !.firstFatal = "none", !.renderer = "none", !.initDone = FALSE,
+    [s EXCEPT !.hm = IF "clear-outside-mutex" \in AsFound THEN @ ELSE "free",
+              !.firstFatal = "none", !.renderer = "none", !.initDone = FALSE,
               !.rt = "none", !.rtFlag = FALSE, !.ag = <<>>, !.regOpen = TRUE, !.cancelOnce = FALSE,
               !.ig = ClearAll(@), !.vg = ClearAll(@), !.rs[x].pc = "r4",
               \* handlers parked on objects of the old generation are never woken again ("orphan"), unless their
@@ -454,7 +461,7 @@ ResetClearDo(s, x) ==
 
 \* Server.Clear: drain InvokeDoneChan, Release; phase idle; the message on ResetDoneChan is taken by
 \* whichever Reset call is waiting
-ResetServerClearEn(s, x) == s.rs[x].pc = "r4"
+ResetServerClearEn(s, x) == s.rs[x].pc = "r4" /\ "server.resetBeforeClear" \notin s.held
 ResetServerClearDo(s, x) ==
     [Release([s EXCEPT !.srv.done = "empty", !.srv.phase = "idle", !.srv.cached = NoCached]) EXCEPT
         !.rdone = @ + 1, !.rs = [y \in DOMAIN s.rs \ {x} |-> s.rs[y]]]
@@ -577,6 +584,23 @@ ShutReapTimeoutEn(s) == s.pcS.pc = "reap" /\ \E p \in DOMAIN s.procs : s.procs[p
 ShutReapTimeoutDo(s) == [s EXCEPT !.shutOn = FALSE, !.pcS.pc = "done"]
 
 ----------------------------------------------------------------------------
+(* pause points of the verification hooks: a goroutine reaches the point (HookEnter) and stays there *)
+(* until the harness lets it go (HookLeave); the step behind the point is disabled meanwhile        *)
+
+AtPoint(s, p) ==
+    CASE p = "rapid.reinitialize"      -> \E x \in DOMAIN s.rs : s.rs[x].pc = "r3"
+      [] p = "server.resetBeforeClear" -> \E x \in DOMAIN s.rs : s.rs[x].pc = "r4"
+      [] p = "server.beforeReserve"    -> \E k \in DOMAIN s.iv : s.iv[k].r = "res"
+      [] p = "server.beforeFastInvoke" -> \E k \in DOMAIN s.iv : s.iv[k].f = "fast"
+      [] p = "watch.flowsCanceled"     -> s.pcW.pc = "w3"
+      [] p = "init.afterRegisterCount" -> s.pcI.pc = "d2" /\ Len(s.toExec) = Cardinality(s.extFiles)
+      [] OTHER -> FALSE
+HookEnterEn(s, p) == p \notin s.held /\ AtPoint(s, p)
+HookEnterDo(s, p) == [s EXCEPT !.held = @ \cup {p}]
+HookLeaveEn(s, p) == p \in s.held
+HookLeaveDo(s, p) == [s EXCEPT !.held = @ \ {p}]
+
+----------------------------------------------------------------------------
 (* processes and the events watcher (watchEvents, handleProcessExit)       *)
 
 \* a process exits by itself or is signalled from outside (observable: ProcExit)
@@ -597,20 +621,27 @@ WatchRecvDo(s, p) ==
        ELSE [s1 EXCEPT !.firstFatal = FF(@, IF isRt THEN "Runtime.ExitError" ELSE "Extension.Crash"),
                        !.pcW = [pc |-> "w2", p |-> p, err |-> IF isRt THEN "rtexit" ELSE "agentexit"]]
 
-\* w2: handleProcessExit: awaited agent -> Exited / ShutdownFailed; close the exit channel
-WatchHandleEn(s) == s.pcW.pc = "w2"
-WatchHandleDo(s) ==
+\* w2, w3: CancelFlows(err) and handleProcessExit (awaited agent -> Exited / ShutdownFailed; close the
+\* exit channel).  The repaired code cancels first; as found ("watch-close-first", F-C08-2) it closed the
+\* channel first, which let a waiting reset finish and re-arm the flows before the cancellation arrived.
+WHandle(s) ==
     LET p == s.pcW.p
         a == p[1]
         s1 == IF p \in s.shutAwait /\ a \in Agents(s) /\ s.ag[a].st = "Running"
               THEN [s EXCEPT !.ag[a].st = "Exited"]      \* Exited or ShutdownFailed: not distinguished
               ELSE s
     IN IF ~HasChan(s, p) THEN [s1 EXCEPT !.crashed = TRUE, !.pcW.pc = "dead"]   \* log.Panicf
-       ELSE [s1 EXCEPT !.procs[p].ch = "closed", !.pcW.pc = "w3"]
+       ELSE [s1 EXCEPT !.procs[p].ch = "closed"]
+WCancel(s) == CancelFlows(s, s.pcW.err)
+WNext(s, pc) == IF s.pcW.pc = "dead" THEN s
+                ELSE IF pc = "idle" THEN [s EXCEPT !.pcW = [pc |-> "idle", p |-> <<>>, err |-> ""]]
+                ELSE [s EXCEPT !.pcW.pc = pc]
 
-\* w3: CancelFlows(err)
-WatchCancelEn(s) == s.pcW.pc = "w3"
-WatchCancelDo(s) == [CancelFlows(s, s.pcW.err) EXCEPT !.pcW = [pc |-> "idle", p |-> <<>>, err |-> ""]]
+WatchHandleEn(s) == s.pcW.pc = "w2"
+WatchHandleDo(s) == WNext(IF "watch-close-first" \in AsFound THEN WHandle(s) ELSE WCancel(s), "w3")
+
+WatchCancelEn(s) == s.pcW.pc = "w3" /\ "watch.flowsCanceled" \notin s.held
+WatchCancelDo(s) == WNext(IF "watch-close-first" \in AsFound THEN WCancel(s) ELSE WHandle(s), "idle")
 
 ----------------------------------------------------------------------------
 (* Runtime API and Extensions API handlers (lambda/rapi/handler)           *)
@@ -681,7 +712,7 @@ SendBody(s, id, body, big) ==
     ELSE IF s.srv.sent THEN <<s, "ResponseSent">>
     ELSE IF ~s.srv.stream THEN <<s, "NoStream">>
     ELSE IF big THEN <<s, "TooLarge">>
-    ELSE <<[s EXCEPT !.srv.sent = TRUE, !.iv[s.srv.sowner].body = body], "ok">>
+    ELSE <<[s EXCEPT !.srv.sent = TRUE, !.iv[s.srv.sowner].body = body, !.iv[s.srv.sowner].got = TRUE], "ok">>
 
 \* runtime.ResponseSent(): state ResponseSent and arrival at the response latch (an error panics the handler)
 RtResponseSent(s, c, okRes) ==
@@ -882,5 +913,56 @@ Urgent(s) ==
     \/ ShutAgentsJoinedEn(s) \/ ShutReapedEn(s)
     \/ (\E p \in DOMAIN s.procs : WatchRecvEn(s, p)) \/ WatchHandleEn(s) \/ WatchCancelEn(s)
     \/ \E c \in DOMAIN s.calls : EffectEn(s, c) \/ WakeEn(s, c)
+
+----------------------------------------------------------------------------
+(* Properties of the listed claims as predicates of a state.  MC_Rapid checks them as invariants of the  *)
+(* composite; Trace_Rapid evaluates them in every state of the behaviour that explains a recorded trace *)
+(* and reports the names of the ones that failed ("flags").                                             *)
+
+AllDone(s) ==
+    \A k \in DOMAIN s.iv : s.iv[k].m \in {"ret", "gone"} /\ s.iv[k].f = "off" /\ s.iv[k].i = "off" /\ s.iv[k].r = "off"
+
+IdleAfterReset(s) ==
+    /\ s.gen > 0 /\ s.rs = <<>> /\ s.rdone = 0 /\ s.drv = "idle"
+    /\ s.pcI.pc = "off" /\ s.pcV.pc = "off" /\ s.pcS.pc = "off" /\ s.pcT.pc = "off" /\ s.pcW.pc = "idle"
+    /\ ~s.initDone /\ s.srv.initOut = "closed" /\ s.srv.inv = 0 /\ s.hm = "free"
+    /\ AllDone(s)
+    /\ \A p \in DOMAIN s.procs : s.procs[p].st = "dead" /\ s.procs[p].ev \in {"none", "delivered"}
+    /\ \A c \in DOMAIN s.calls : s.calls[c].st \in {"done", "orphan"}
+    /\ s.ag = <<>>          \* nobody has registered since (the environment may change the fresh state legitimately)
+
+PropHolds(s) ==
+    [ \* the emulator never dies from a panic of one of its own goroutines (C07, C10)
+      NoCrash |-> ~s.crashed,
+      \* C03: the runtime process exists only if every external extension of its generation has registered
+      RuntimeAfterRegistrations |->
+          ProcAlive(s, RtProc(s.gen)) =>
+              \A a \in Agents(s) : (s.ag[a].kind = "ext" /\ s.ag[a].gen = s.gen) => s.ag[a].st # "Started",
+      \* C03: while an invocation is being delivered every registered party has polled and registration is closed
+      NoEventBeforeAllNext |->
+          (s.pcV.pc = "v3" /\ s.renderer = "invoke") =>
+              (~s.regOpen /\ \A a \in Agents(s) : s.ag[a].st \notin {"Started", "Registered"}),
+      \* C04: an invocation is complete only when the runtime and every INVOKE subscriber have polled again
+      DoneOnlyAfterAll |->
+          s.pcV.pc = "ok" =>
+              (s.rt \in {"Ready", "Running"} /\ \A a \in Subscribed(s, "INVOKE") : s.ag[a].st \in {"Ready", "Running", "ExitError"}),
+      \* C01, C05, C10: the orchestrator only ever works for the invocation that holds the reservation
+      \* (no "ghost" of an invocation whose caller has been answered and whose reset has completed)
+      NoGhostInvoke |-> s.pcV.pc # "off" => s.srv.inv = s.pcV.k,
+      \* C01, C02: the reply stream attached to a reservation belongs to the caller that made it
+      StreamOwnerIsReserver |-> s.srv.stream => s.srv.sowner = s.srv.inv,
+      \* C01: a caller told "success" has been sent a body that the runtime posted
+      OkHasBody |->
+          \A k \in DOMAIN s.iv : (s.iv[k].m = "ret" /\ s.iv[k].out = "") => s.iv[k].got,
+      \* C08: once a reset is over and nothing of the old generation is still running, nothing of it is left
+      ResetIsFresh |->
+          IdleAfterReset(s) =>
+              /\ s.ig = InitGates /\ s.vg = InvGates /\ ~s.cancelOnce /\ s.regOpen
+              /\ s.rt = "none" /\ s.firstFatal = "none" /\ s.renderer = "none"
+              /\ s.srv.cached = NoCached      \* (a completion message left by an old invocation is harmless: it is
+                                              \*  recognised by its id and dropped, see RelAwait)
+    ]
+
+PropViolations(s) == {n \in DOMAIN PropHolds(s) : ~PropHolds(s)[n]}
 
 =============================================================================
